@@ -70,8 +70,10 @@ class Inputs:
                 continue
             self.map[n] = (es[0]["entity_number"], sigkey(fs[0]))
 
-    def set(self, valuation):
+    def set(self, valuation, partial=False):
         for n, v in valuation.items():
+            if partial and n not in self.map:
+                continue
             num, k = self.map[n]
             self.circ.const_override[num] = {k: w(v)} if w(v) != 0 else {}
 
